@@ -752,7 +752,8 @@ impl Eraser {
                             if i == 1 && a["spread"] == json!(false) && ty(&a["expression"]) == "ArrayExpression" {
                                 for el in a["expression"]["elements"].as_array().unwrap() {
                                     if el.is_null() {
-                                        // an elision is not an operand expression: it is skipped (FREE zone, see C04)
+                                        // a hole of the arguments array is an `undefined` argument of the call
+                                        ex.push(json!({"spread": false, "expression": {"type": "Identifier", "value": "undefined"}}));
                                         continue;
                                     }
                                     ex.push(el.clone());
